@@ -250,4 +250,38 @@ def recoverBreaks (rescaledBreaks : List α) (rescaledTimes times : List α) (fi
 
 end Recover
 
+/-! ### standalone `rescale_tree_sequence`
+
+    fixed_nodes = (samples);  nodes_time = ts.nodes_time.copy()
+    for _ in np.arange(num_iterations):
+        original_breaks, rescaled_breaks = mutational_timescale(nodes_time, mutations_span, fixed_nodes, parent, child, num_intervals)
+        nodes_time = piecewise_scale_point_estimate(nodes_time, fixed_nodes, original_breaks, rescaled_breaks)
+    mutations_time = (nodes_time[mutations_parent] + nodes_time[mutations_child]) / 2
+    mutations_time[above_root] = nodes_time[ts.mutations_node[above_root]]
+-/
+section Standalone
+variable {α : Type} [Inhabited α] [Add α] [Sub α] [Mul α] [Div α] [OfNat α 0] [OfNat α 1] [OfNat α 2]
+  [LT α] [DecidableLT α] [LE α] [DecidableLE α]
+
+/-- the iteration loop; `none` = an assertion of `mutational_timescale` / `piecewise_scale_point_estimate` fails -/
+def rescaleIter (cast : Nat → α) (lik : List (α × α)) (edges : List Edge) (fixed : List Bool)
+    (numIntervals : Nat) : Nat → List α → Option (List α)
+  | 0, t => some t
+  | n + 1, t =>
+    match mutationalTimescale cast t lik edges numIntervals with
+    | none => none
+    | some (ob, rb) =>
+      if pwlPre ob rb then
+        rescaleIter cast lik edges fixed numIntervals n (piecewiseScalePoint t fixed ob rb)
+      else none
+
+/-- time given to a mutation: midpoint of its edge, or the node's time for a mutation above a root
+(`edge = none`) -/
+def mutationTime (t : List α) (edge : Option Edge) (node : Nat) : α :=
+  match edge with
+  | some e => (lget t e.p + lget t e.c) / 2
+  | none => lget t node
+
+end Standalone
+
 end Tsdate.Rescale
